@@ -110,7 +110,7 @@ Section RT.
     { rewrite <- (utf8_decode_len _ _ Hd). apply str_len_app. }
     assert (str_len (pr p) = S (length (bbody p))) as Lp.
     { rewrite <- length_utf8_encode. rewrite Ee. reflexivity. }
-    unfold a_core. cbn [is_nil].
+    unfold a_core, a_core_g. cbn [is_nil].
     assert ((if length r =? 0 then Ok [62%N] else Ok (firstn (length r + 1) ([62%N] ++ r)))
             = @Ok (list N) (62%N :: r)) as Hs.
     { destruct (length r =? 0) eqn:En.
@@ -131,7 +131,7 @@ Section RT.
   Lemma a_run_end : forall fuel suffix, wf_suffix suffix = true ->
     a_run precord (S fuel) (suffix, []) = [Ok None].
   Proof.
-    intros fuel suffix H. cbn [a_run a_next snd fst read_until]. unfold a_core. cbn [length Nat.eqb].
+    intros fuel suffix H. cbn [a_run a_next snd fst read_until]. unfold a_core, a_core_g. cbn [length Nat.eqb].
     rewrite (utf8_decode_ascii suffix (wf_suffix_ascii suffix H)).
     rewrite (trim_all_ws suffix (wf_suffix_ws suffix H)). reflexivity.
   Qed.
